@@ -59,6 +59,15 @@ pub fn k_zoned_fixed_add_days(s: i64, ns: i32, off: i32, neg: bool, w: i64, d: i
     let sp = mkspan_cal(neg, 0, 0, w, d)?;
     Some(z.checked_add(sp).ok().map(|r| (zts(&r), r.offset().seconds())))
 }
+/// a span mixing a calendar unit (days) with time units: days on the wall clock (24 h each in a fixed zone),
+/// then the time units as exact elapsed time
+pub fn k_zoned_fixed_add_mixed(s: i64, ns: i32, off: i32, neg: bool, d: i64, h: i64, us: i64, nanos: i64) -> Option<Option<(TS, i32)>> {
+    let o = Offset::from_seconds(off).ok()?;
+    let z = Zoned::new(Timestamp::new(s, ns).ok()?, TimeZone::fixed(o));
+    let sp = Span::new().try_days(d).ok()?.try_hours(h).ok()?.try_microseconds(us).ok()?.try_nanoseconds(nanos).ok()?;
+    let sp = if neg { sp.negate() } else { sp };
+    Some(z.checked_add(sp).ok().map(|r| (zts(&r), r.offset().seconds())))
+}
 /// start of day = the instant of civil midnight of the same civil date
 pub fn k_zoned_fixed_start_of_day(s: i64, ns: i32, off: i32) -> Option<Option<(TS, T4, i32)>> {
     let o = Offset::from_seconds(off).ok()?;
